@@ -209,6 +209,8 @@ where
         write_set: &mut HashSet<LocationAndType>,
     ) {
         write_set.insert(location.clone());
+        #[cfg(grevm_verif)]
+        crate::verif::sched_point("mv.publish");
         self.mv_memory
             .entry(location)
             .or_default()
@@ -224,6 +226,8 @@ where
         let mut read_version = ReadVersion::Storage;
         let location = LocationAndType::Code(address);
         // 1. read from multi-version memory
+        #[cfg(grevm_verif)]
+        crate::verif::sched_point("mv.read.code");
         if let Some(written_transactions) = self.mv_memory.get(&location) &&
             let Some((&txid, entry)) =
                 written_transactions.range(..self.version.txid).next_back() &&
@@ -277,6 +281,8 @@ where
             let mut read_account = None;
             let location = LocationAndType::Basic(address);
             // 1. read from multi-version memory
+            #[cfg(grevm_verif)]
+            crate::verif::sched_point("mv.read.basic");
             if let Some(written_transactions) = self.mv_memory.get(&location) &&
                 let Some((&txid, entry)) =
                     written_transactions.range(..self.version.txid).next_back() &&
@@ -317,6 +323,8 @@ where
         let reset_location = LocationAndType::StorageReset(address);
         let mut reset_version = ReadVersion::Storage;
         let mut reset_txid = None;
+        #[cfg(grevm_verif)]
+        crate::verif::sched_point("mv.read.reset");
         if let Some(writes) = self.mv_memory.get(&reset_location) &&
             let Some((&txid, entry)) = writes.range(..self.version.txid).next_back() &&
             matches!(entry.data, MemoryValue::StorageReset)
@@ -332,6 +340,8 @@ where
         let location = LocationAndType::Storage(address, index);
         let mut slot_version = ReadVersion::Storage;
         let mut slot_write = None;
+        #[cfg(grevm_verif)]
+        crate::verif::sched_point("mv.read.slot");
         if let Some(writes) = self.mv_memory.get(&location) &&
             let Some((&txid, entry)) = writes.range(..self.version.txid).next_back() &&
             let MemoryValue::Storage(value) = entry.data
